@@ -78,6 +78,13 @@ func GenProperty(w *Writer, prop string, t Tier, seed uint64) error {
 	r := NewRng(seed ^ hashStr(prop))
 	switch prop {
 	case "C01":
+		if t.Thorough {
+			if _, err := GenExhaustiveAxes(w, 5); err != nil {
+				return err
+			}
+		} else if _, err := GenExhaustiveAxes(w, 3); err != nil {
+			return err
+		}
 		return runEvalPlans(w, r, t, []evalPlan{
 			{fam: "axis", doc: docDefault, gen: func(g *ExprGen, d *Doc, r *Rng) (Expr, int) {
 				g.Cfg.Preds = 0
@@ -170,6 +177,33 @@ func GenProperty(w *Writer, prop string, t Tier, seed uint64) error {
 					e = Call{Base: Ctx{}, Name: "number", Args: []Expr{Call{Base: Ctx{}, Name: "string", Args: []Expr{Var{Name: v}}}}}
 				}
 				return e, 0
+			}},
+			{fam: "numfmt", doc: numericDoc, gen: func(g *ExprGen, d *Doc, r *Rng) (Expr, int) {
+				// number → text → number on doubles of every magnitude, and text → number on long numerals:
+				// validates the rational model of strconv.FormatFloat/ParseFloat
+				switch r.Intn(3) {
+				case 0:
+					return Call{Base: Ctx{}, Name: "string", Args: []Expr{Var{Name: "n"}}}, 0
+				case 1:
+					return Call{Base: Ctx{}, Name: "number", Args: []Expr{Call{Base: Ctx{}, Name: "string", Args: []Expr{Var{Name: "m"}}}}}, 0
+				}
+				nd := 1 + r.Intn(24)
+				var b []byte
+				dot := r.Intn(nd + 1)
+				for i := 0; i < nd; i++ {
+					if i == dot && r.Chance(2, 3) {
+						b = append(b, '.')
+					}
+					b = append(b, byte('0'+r.Intn(10)))
+				}
+				lit := string(b)
+				if r.Chance(1, 4) {
+					lit = "-" + lit
+				}
+				if r.Chance(1, 6) {
+					lit = " " + lit + "\n"
+				}
+				return Call{Base: Ctx{}, Name: "number", Args: []Expr{Lit{S: lit}}}, 0
 			}},
 			{fam: "strval", doc: docDefault, gen: func(g *ExprGen, d *Doc, r *Rng) (Expr, int) {
 				return Call{Base: Ctx{}, Name: "string"}, g.Start
@@ -271,6 +305,8 @@ func GenProperty(w *Writer, prop string, t Tier, seed uint64) error {
 					if f.Uri != "" {
 						if p, ok := g.prefixFor(f.Uri); ok {
 							name.HasPfx, name.Pfx = true, p
+						} else {
+							name = Call{Base: Ctx{}, Name: "argcount", Args: []Expr{g.Any(0)}}
 						}
 					}
 					if r.Chance(1, 2) {
